@@ -18,7 +18,12 @@ EXPLANATION = (
     "(groups of unequal size) reaches a scatter only through mode='drop' with the pad moved out of range. "
     "R-C10-write-back: write_trainables recomputes values with the same pstate construction that init_fn "
     "uses and writes synapse keys under the type mask. R-C10-pair: trainable_params and "
-    "indices_set_by_trainables are always extended / filtered / cleared together."
+    "indices_set_by_trainables are always extended / filtered / cleared together. R-C10-tojax: every "
+    "entry point rebuilds jaxnodes/jaxedges unconditionally and BEFORE the first read, and the rebuild "
+    "covers every node column and every parameter and state of every synapse type. R-C10-groups: a group "
+    "(which may share a trainable) is extended from the base module's current entry, never from a view's "
+    "filtered copy. R-C10-init: the default initial value of a shared trainable ignores the padded dummy "
+    "entries. R-C10-derived: derived parameters are computed after the overrides."
 )
 ASSUMPTIONS = ["jax .at[].set(mode='drop') drops out-of-range indices", "key classes: node keys vs synapse keys"]
 
